@@ -25,7 +25,7 @@ export function genTplItem(rng, d) {
   }
 }
 export function tplDescribe(items) {
-  return "`" + items.map((it) => (it instanceof Atom ? "${" + { str: "string", num: "number", bool: "boolean" }[it.s] + "}" : head(it) === "lit" ? it[1] : "(" + it.slice(1).map((x) => tplDescribe([x])).join(" | ") + ")")).join("") + "`";
+  return "`" + items.map((it) => (it instanceof Atom ? "${" + { str: "string", num: "number", bool: "boolean" }[it.s] + "}" : head(it) === "lit" ? it[1].replace(/[`\\$]/g, (c) => "\\" + c) : "(" + it.slice(1).map((x) => tplDescribe([x])).join(" | ") + ")")).join("") + "`";
 }
 export function genConst(rng) {
   switch (rng.below(8)) {
@@ -134,6 +134,9 @@ export function genRT(rng, d, names) {
       const n = 2 + rng.below(2);
       const objNames = names.filter((nm) => nm.startsWith("O"));
       r = [A("allof"), ...Array.from({ length: n }, () => (rng.chance(19, 20) ? (objNames.length && rng.chance(1, 3) ? [A("ref"), rng.pick(objNames)] : genObject(rng, d - 1, names)) : [A("array"), genLeaf(rng)]))];
+      // intersections whose members are not object types (`string & StringFormat<…>`, `(string | number) & (string | boolean)`,
+      // `unknown & string`): every member may accept a value the intersection itself rejects
+      if (rng.chance(1, 5)) r = [A("allof"), ...Array.from({ length: n }, () => (rng.chance(1, 2) ? genLeaf(rng) : [A("anyof"), genLeaf(rng), genLeaf(rng)]))];
       break;
     }
     case 8: r = genDisc(rng, d - 1, names); break;
